@@ -36,13 +36,13 @@ Definition memn (q : nat) (l : list nat) : bool := existsb (Nat.eqb q) l.
 Fixpoint qs (s : stmt) (loc : list nat) : option (list nat) :=
   match s with
   | SNewQubit q => if memn q loc then None else Some (loc ++ [q])
-  | SFree q | SMeasFut q false _ _ | SMeasNew q false _ | SMeasReg q false _ =>
+  | SFree q | SMeasFut q false _ _ | SMeasNew q false _ | SMeasReg q false _ | SMeasFutX q false _ _ _ =>
       if memn q loc then Some (ndel q loc) else None
   | SIf _ _ _ _ b | SLoop _ _ _ _ _ _ b | SForeach _ _ _ b =>
       match qb b [] with Some [] => Some loc | _ => None end
   | SLoopUntil _ _ b _ _ cl =>
       match qb b [], qb cl [] with Some [], Some [] => Some loc | _, _ => None end
-  | SEpr _ _ | SFlush | SNewArray _ _ _ | SNewReg _ _ | SUAdd _ _ _ | SFutAddX _ _ _ _ _ | SMeasFutX _ _ _ _ _ => None
+  | SEpr _ _ | SFlush | SNewArray _ _ _ | SNewReg _ _ | SUAdd _ _ _ => None
   | _ => Some loc
   end
 with qb (b : block) (loc : list nat) : option (list nat) :=
@@ -68,7 +68,7 @@ with bnoreg (b : block) : bool :=
 Definition emits_stmt (s : stmt) : bool :=
   match s with
   | SNewQubit _ | SGate _ _ | SRot _ _ _ _ | STwo _ _ _ | SMeasFut _ _ _ _ | SMeasNew _ _ _
-  | SMeasReg _ _ _ | SFree _ | SFutAdd _ _ _ _ | SRegAdd _ _ _ => true
+  | SMeasReg _ _ _ | SFree _ | SFutAdd _ _ _ _ | SRegAdd _ _ _ | SFutAddX _ _ _ _ _ | SMeasFutX _ _ _ _ _ => true
   | _ => false
   end.
 Fixpoint emits (b : block) : bool :=
@@ -81,12 +81,11 @@ Fixpoint emits (b : block) : bool :=
 Fixpoint wfs (s : stmt) : bool :=
   match s with
   | SIf _ _ _ _ b => wf_body b && bnoreg b && bwfs b
-  | SLoop _ _ None a e _ b => wf_body b && bwfs b && (negb (Z.eqb a e) || bnoreg b)
-  | SLoop _ _ (Some _) _ _ _ _ => false
+  | SLoop _ _ _ a e _ b => wf_body b && bwfs b && (negb (Z.eqb a e) || bnoreg b)
   | SForeach _ _ _ b => wf_body b && bnoreg b && bwfs b
   | SLoopUntil _ mx b _ _ cl =>
       wf_body b && wf_body cl && bwfs b && bwfs cl && bnoreg cl && (Z.ltb 0 mx || bnoreg b) && emits b
-  | SEpr _ _ | SFlush | SNewReg _ _ | SUAdd _ _ _ | SFutAddX _ _ _ _ _ | SMeasFutX _ _ _ _ _ => false
+  | SEpr _ _ | SFlush | SNewReg _ _ | SUAdd _ _ _ => false
   | _ => true
   end
 with bwfs (b : block) : bool :=
@@ -119,7 +118,7 @@ Definition agrees (s : mst) (e : est) : Prop :=
 Fixpoint qpk (s : stmt) (n : nat) : nat * nat :=      (* (live after, peak) *)
   match s with
   | SNewQubit _ => (S n, S n)
-  | SFree _ | SMeasFut _ false _ _ | SMeasNew _ false _ | SMeasReg _ false _ => (Nat.pred n, n)
+  | SFree _ | SMeasFut _ false _ _ | SMeasNew _ false _ | SMeasReg _ false _ | SMeasFutX _ false _ _ _ => (Nat.pred n, n)
   | SIf _ _ _ _ b | SLoop _ _ _ _ _ _ b | SForeach _ _ _ b | SEpr _ b => (n, snd (bqpk b n))
   | SLoopUntil _ _ b _ _ cl => (n, Nat.max (snd (bqpk b n)) (snd (bqpk cl n)))
   | _ => (n, n)
